@@ -67,6 +67,46 @@ def scenario(case):
         out["retry_same"] = try_export(b.top)
         out["retry_default"] = try_export(b.top)
         offending = case.get("module") if "raise" in out["first"] else None
+    elif kind == "midpass":
+        # a failure in the middle of whichever pass makes the n-th `Module.add` of the elaboration (rewriting passes add what they
+        # have just popped), of any exception type; the top possibly anonymous; the designer edits before trying again
+        import sys as _sys
+        hm = _sys.modules["hdl21.module"]
+        exc = {"RuntimeError": RuntimeError, "TypeError": TypeError, "ValueError": ValueError, "KeyError": KeyError, "AssertionError": AssertionError}[case["exc"]]
+        if case.get("anon_top"):
+            b.top.name = None
+        orig_add = hm.Module.add
+        state = {"n": 0}
+
+        def sabotaged(self, *a, **k):
+            state["n"] += 1
+            if state["n"] == case["nth"]:
+                state["module"] = self.name if self.name is not None else d["top"]
+                raise exc("boom: injected failure in the middle of a pass")
+            return orig_add(self, *a, **k)
+
+        hm.Module.add = sabotaged
+        try:
+            out["first"] = try_export(b.top)
+        finally:
+            hm.Module.add = orig_add
+        out["adds"] = state["n"]
+        out["retry_same"] = try_export(b.top)
+        # the designer's edits
+        if case.get("anon_top"):
+            b.top.name = d["top"]
+        if case.get("edit") == "signal":
+            try:
+                b.top.add(h.Signal(name="zz_late", width=1))
+            except Exception as ex:  # noqa
+                out["edit_refused"] = common.errstr(ex)
+        out["retry_default"] = try_export(b.top)
+        out["retry_again"] = try_export(b.top)
+        offending = None
+        if "raise" in out["first"]:
+            # the modules that may be half-rewritten: those the failed call was inside of (everything that contains one is off limits too)
+            offending = state.get("module")
+            out["offending"] = offending
     else:
         raise ValueError(kind)
     # a design sharing sub-modules: every module of the design that does not contain the offending one
@@ -207,6 +247,69 @@ def genrun_trace(plan):
 
 
 
+def gen_events(rng, depth=0):
+    """a random event tree: the call, what its body does this time (nested calls, catch or not, return / raise / return None)"""
+    ev = {"c": rng.randrange(4)}
+    how = rng.choice(["ok", "ok", "ok", "raise", "none"])
+    if how == "ok":
+        ev["ok"] = 0
+    else:
+        ev["how"] = how
+    if depth < 3:
+        ev["nested"] = [gen_events(rng, depth + 1) for _ in range(rng.choice([0, 0, 1, 1, 2]))]
+    ev["catches"] = rng.random() < 0.5
+    return ev
+
+
+def nested_trace(evs):
+    """Top-level calls of one generator whose bodies follow the event trees. -> per top-level call: module by identity /
+    failed / circular, the cache's done keys, pending and stack sizes; and the calls whose bodies ran, in order."""
+    cursor, mods, ran = [], [], []
+
+    @h.paramclass
+    class P:
+        w = h.Param(dtype=int, desc="w")
+
+    def body(p: P) -> h.Module:
+        ev = cursor[-1]
+        assert ev["c"] == p.w
+        ran.append(p.w)
+        for sub in ev.get("nested", []):
+            cursor.append(sub)
+            try:
+                G(w=sub["c"]) if len(cursor) % 2 else G(P(w=sub["c"]))
+            except Exception:  # noqa
+                if not ev.get("catches"):
+                    raise
+            finally:
+                cursor.pop()
+        if "ok" in ev:
+            m = h.Module()
+            m.a = h.Port(width=p.w + 1)
+            return m
+        if ev["how"] == "none":
+            return None
+        raise ValueError("planned failure")
+
+    body.__name__ = "G"
+    G = h.generator(body)
+    cache = h.generator.cache
+    trace = []
+    for ev in evs:
+        cursor[:] = [ev]
+        ran.clear()
+        try:
+            m = G(w=ev["c"])
+            if not any(m is x for x in mods):
+                mods.append(m)
+            res = {"module": next(k for k, x in enumerate(mods) if x is m), "name": m.name}
+        except Exception as ex:  # noqa
+            res = "circular" if "circular" in str(ex) else "failed"
+        done = sorted(c.params.w for c in cache.done if c.gen is G)
+        trace.append({"result": res, "done": done, "pending": len(cache.pending), "stack": len(cache.stack), "ran": list(ran)})
+    return trace
+
+
 def runner_trace(job):
     """The real runner (ElabPass.elaborate_module_base / Elaborator.elaborate) over a DAG of empty modules and marker passes that
     fail at planned (pass, module) points: after every call, which pass class has completed on which module, and which modules
@@ -302,8 +405,15 @@ def run(ctx):
         inst = dict({"n": "x1", "of": R, "conns": good_conns + [["no_such_port", {"k": "sig", "n": "zz"}]]}, **extra)
         dd = {"bundles": [_gd.DIFF] if kindkey == "pair" else [], "modules": [{"name": "Top", "sigs": sigs, "bundles": bundles, "insts": [inst]}], "top": "Top"}
         jobs.append({"kind": "fault", "design": dd, "fault": f"extra_connection_last_on_{kindkey}", "module": "Top", "unrelated": unrelated, "style": "proc"})
+    # failures in the middle of a pass: the n-th Module.add of the elaboration raises (any exception type); anonymous tops; edits afterwards
+    mid_designs = good + [mid_corpus_design()]
+    for d in mid_designs:
+        nths = list(range(1, 13)) if not ctx.quick else sorted(rng.sample(range(1, 13), 5))
+        for nth in nths:
+            jobs.append({"kind": "midpass", "design": d, "nth": nth, "exc": rng.choice(["RuntimeError", "TypeError", "ValueError", "KeyError", "AssertionError"]),
+                         "anon_top": rng.random() < 0.4, "edit": rng.choice([None, "signal"]), "unrelated": unrelated})
     mo = ctx.drv.run([designs.sem_line(j, None) for j in jobs])
-    jobs = [j for j, o in zip(jobs, mo) if j["kind"] == "inject" or "error" in o["src"]]
+    jobs = [j for j, o in zip(jobs, mo) if j["kind"] in ("inject", "midpass") or "error" in o["src"]]
     results = common.pmap_fresh(scenario, jobs)
     # fresh references for every (design, module) that shows up
     need = {}
@@ -311,6 +421,10 @@ def run(ctx):
         for m in j["design"]["modules"]:
             need[(json.dumps(j["design"]), m["name"])] = (j["design"], m["name"])
     need[(json.dumps(unrelated), "Unrelated")] = (unrelated, "Unrelated")
+    for j in jobs:
+        if j["kind"] == "midpass" and j.get("edit") == "signal":
+            d2 = edited_design(j["design"])
+            need[(json.dumps(d2), d2["top"])] = (d2, d2["top"])
     keys = list(need)
     fresh = dict(zip(keys, common.pmap_fresh(fresh_digest, [need[k] for k in keys])))
     np_keys = sorted({(json.dumps(j["design"]), n) for j, r in zip(jobs, results) for n in r.get("new_parents", {})})
@@ -332,6 +446,20 @@ def run(ctx):
             rd = r["retry_default"]
             if "ok" in rd and rd != ftop:
                 rep.fail("pred", case, {"why": "after a failed pass a package was returned that a fresh process does not return", "got": rd, "fresh": ftop})
+        elif j["kind"] == "midpass":
+            if "ok" in r["first"]:
+                rep.extra["midpass_not_reached"] = rep.extra.get("midpass_not_reached", 0) + 1
+                if r["first"] != ftop and not j.get("anon_top"):
+                    rep.fail("corr", case, {"why": "elaboration without a failure differs from the fresh package", "got": r["first"], "fresh": ftop})
+                continue
+            if r["retry_same"] != r["first"]:
+                rep.fail("pred", case, {"why": "retry reports a different outcome than the original failure", "first": r["first"], "retry": r["retry_same"]})
+            d2 = edited_design(j["design"]) if j.get("edit") == "signal" and "edit_refused" not in r else j["design"]
+            want = fresh[(json.dumps(d2), d2["top"])]
+            for k in ("retry_default", "retry_again"):
+                if "ok" in r[k] and r[k] != want:
+                    rep.fail("pred", case, {"why": f"after a failure in the middle of a pass (and the designer's edit) {k} returned a package a fresh process does not return",
+                                            "got": r[k], "fresh": want, "first": r["first"]})
         else:
             if "ok" in r["first"]:
                 continue  # C02's business
@@ -392,6 +520,33 @@ def run(ctx):
             if sorted(x[0] for x in want["done"]) != got["done"] or got["pending"] != 0 or got["stack"] != 0 or want["pending"] != 0:
                 rep.fail("pred", case, {"why": f"after call {k} the generator cache is not what the calls so far leave behind", "model": want, "impl": got})
                 break
+    # generators calling generators: event trees against GenRun.runEv
+    nplans = [[gen_events(rng) for _ in range(rng.randint(2, 6))] for _ in range(40 if ctx.quick else 600)]
+    nplans.insert(0, [{"c": 0, "ok": 0, "catches": True, "nested": [{"c": 1, "how": "raise", "catches": False, "nested": []}]},
+                      {"c": 1, "how": "raise", "catches": False, "nested": []}, {"c": 1, "ok": 0, "catches": False, "nested": []}])
+    ntr = common.pmap_fresh(nested_trace, nplans)
+    nmo = ctx.drv.run([{"prop": "GEN", "op": "genrun2", "calls": pl} for pl in nplans])
+    for pl, tr, mo in zip(nplans, ntr, nmo):
+        case = {"stream": "nested_generators", "plan": pl}
+        rep.count("nested_generators", json.dumps(pl))
+        seen = {}
+        for k, (ev, got, want) in enumerate(zip(pl, tr, mo["trace"])):
+            wres = want["result"]
+            gres = got["result"]
+            wkind = "module" if isinstance(wres, dict) else wres
+            gkind = "module" if isinstance(gres, dict) else gres
+            if wkind != gkind:
+                spurious = gkind == "circular" or (wkind == "module" and gkind != "module")
+                rep.fail("pred" if spurious else "corr", case, {"why": f"top-level call {k} (w={ev['c']}): model says {wkind}, the implementation {gkind}", "impl": got, "model": want})
+                break
+            if gkind == "module":
+                prev = seen.setdefault(ev["c"], gres["module"])
+                if prev != gres["module"] or list(seen.values()).count(prev) != 1 or gres["name"] != f"G(w={ev['c']})":
+                    rep.fail("pred", case, {"why": f"call {k}: module identity / name is not a function of the parameters", "seen": seen, "got": gres})
+                    break
+            if sorted(x[0] for x in want["done"]) != got["done"] or got["pending"] != 0 or got["stack"] != 0:
+                rep.fail("pred", case, {"why": f"after top-level call {k} the generator cache is not what the calls so far leave behind", "model": want, "impl": got})
+                break
     # the runner model itself (Runner.lean, on which the C07 / C08 / C02 theorems are stated) against the real runner
     rjobs = runner_jobs(rng, 150 if ctx.quick else 3000)
     rimpl = common.pmap(runner_trace, rjobs, chunk=8)
@@ -409,6 +564,29 @@ def run(ctx):
     rep.extra["scenarios"] = len(jobs)
     if jobs:
         rep.sample({"scenario": {k: v for k, v in jobs[0].items() if k not in ("unrelated", "design")}, "result": results[0]})
+
+
+def edited_design(d):
+    import copy
+    d2 = copy.deepcopy(d)
+    top = next(m for m in d2["modules"] if m["name"] == d2["top"])
+    top["sigs"].append({"n": "zz_late", "w": 1, "port": False, "dir": "none"})
+    return d2
+
+
+def mid_corpus_design():
+    """arrays, a pair, a bundle port, a port reference and a no-connect in one top: every rewriting pass has something to pop and re-add"""
+    import copy
+    R = copy.deepcopy(gen_design.LEAVES[3])
+    S = lambda n: {"k": "sig", "n": n}
+    sg = lambda n, w=1, port=False: {"n": n, "w": w, "port": port, "dir": "none"}
+    insts = [{"n": "arr", "of": R, "array": 2, "conns": [["p", S("bus")], ["n", S("a")]]},
+             {"n": "pr", "of": R, "pair": ["p", "n"], "conns": [["p", {"k": "bundle", "n": "d1"}], ["n", S("a")]]},
+             {"n": "r1", "of": R, "conns": [["n", S("a")]]},
+             {"n": "r2", "of": R, "conns": [["p", {"k": "pref", "inst": "r1", "port": "p"}], ["n", {"k": "noconn"}]]},
+             {"n": "arr2", "of": R, "array": 3, "conns": [["p", S("a")], ["n", {"k": "bref", "root": "d1", "path": ["p"]}]]}]
+    return {"bundles": [copy.deepcopy(gen_design.DIFF)], "top": "Top",
+            "modules": [{"name": "Top", "sigs": [sg("a", 1, True), sg("bus", 2)], "bundles": [{"n": "d1", "of": "Diff", "port": False}], "insts": insts}]}
 
 
 def reachable(d):
